@@ -47,12 +47,12 @@ func openReader(seg segment.Segment, params index.Params, version Version, head 
 	}
 }
 
-func reopenReader(seg segment.Segment, params index.Params, version Version, ix indexer) *reader {
+func reopenReader(seg segment.Segment, params index.Params, version Version, ix indexer, head bool) *reader {
 	return &reader{
 		segment: seg,
 		params:  params,
 		version: version,
-		head:    false,
+		head:    head,
 
 		index: ix,
 	}
